@@ -363,6 +363,7 @@ func H_C01_dataflow(n int) {
 	vrOuts[w.gen.forks[0].metadata] = LazyArgumentMap{"xs": vrArray(xs), "v": v}
 	w.work.expandForks(true)
 	verifCover("forks expanded")
+	vrUniqueForks(w.work)
 	verifAssert(len(w.work.forks) == n, "C01/C03: a map call over a run-time array has one fork per element")
 	for i, f := range w.work.forks {
 		_, args, err := w.work.resolveInputs(f.forkId, false)
@@ -531,6 +532,7 @@ func H_C01_nested(n0, n1, order int) {
 	}
 	w.work.expandForks(true)
 	verifCover("nested forks expanded")
+	vrUniqueForks(w.work)
 	verifAssert(len(w.work.forks) == n0+n1, "C01/C03: the inner map call has one fork per element of every inner array")
 	// every WORK fork receives one element; collect what each outer fork's
 	// WORK invocations received, by position
@@ -732,6 +734,7 @@ func H_C01_mix(nkeys int) {
 	}
 	w.w.expandForks(true)
 	verifCover("map forks expanded")
+	vrUniqueForks(w.w)
 	verifAssert(len(w.w.forks) == nkeys, "C01/C03: a map call over a run-time typed map has one fork per key")
 	ys := make([]json.RawMessage, nkeys)
 	for _, f := range w.w.forks {
@@ -798,4 +801,141 @@ func H_C01_mix(nkeys int) {
 		verifAssert(verifBytesEq(vrEncode(outs), wantOuts), "C01: the pipeline outputs are the bound values")
 		verifCover("pipeline outputs resolved")
 	}
+}
+
+// ---- a typed-map map call inside an array-mapped pipeline (static sources) ----
+
+const vrArrMapSrc = `
+stage LEAF(
+    in  int x,
+    out int y,
+    src comp "bin",
+)
+
+stage SUMMARY(
+    in  map<int>[] ys,
+    out int        o,
+    src comp       "bin",
+)
+
+pipeline MID(
+    in  map<int> xs,
+    out map<int> ys,
+)
+{
+    map call LEAF(
+        x = split self.xs,
+    )
+
+    return (
+        ys = LEAF.y,
+    )
+}
+
+pipeline TOP(
+    out int o,
+)
+{
+    map call MID(
+        xs = split [
+            {
+                "p": 1,
+                "q": 2,
+            },
+            {
+                "p": 3,
+                "q": 4,
+            },
+        ],
+    )
+
+    call SUMMARY(
+        ys = MID.ys,
+    )
+
+    return (
+        o = SUMMARY.o,
+    )
+}
+
+call TOP()
+`
+
+type vrArrMap struct {
+	ps            *Pipestance
+	leaf, summary *Node
+}
+
+func vrArrMapGraph() *vrArrMap {
+	disableUniquification = false
+	return verifCached("vrArrMapGraph", func() any {
+		rt := &Runtime{Config: &RuntimeOptions{JobMode: "local", VdrMode: VdrDisable}, mrjob: "/m/mrjob", adaptersPath: "/m/adapters"}
+		_, _, ps, err := rt.instantiatePipeline([]byte(vrArrMapSrc), "/m/p.mro", "ps", "/ps", nil, "none", nil, false, true, context.Background())
+		if err != nil {
+			panic("fixture does not instantiate: " + err.Error())
+		}
+		return &vrArrMap{ps, ps.node.top.allNodes["ID.ps.TOP.MID.LEAF"], ps.node.top.allNodes["ID.ps.TOP.SUMMARY"]}
+	}).(*vrArrMap)
+}
+
+// vrUniqueForks: the forks of one node never share a name, directory or
+// journal name (C11), whatever the shape of their ids.
+func vrUniqueForks(n *Node) {
+	for i, f := range n.forks {
+		for j, g := range n.forks {
+			if i < j {
+				verifAssert(f.fqname != g.fqname && f.path != g.path, "C11: two forks of one call never share a name or a directory")
+				verifAssert(f.split_metadata.journalPath != g.split_metadata.journalPath, "C11: two forks of one call never share a journal name")
+			}
+		}
+	}
+}
+
+// H_C01_arrayOfMaps: LEAF is mapped over the keys of a map which is itself an
+// element of the array MID is mapped over.
+//
+//	C01/C03: one LEAF fork per (element, key), each receiving that value; the
+//	consumer receives an array of maps of the LEAF outputs.  C11: distinct names.
+func H_C01_arrayOfMaps() {
+	w := vrArrMapGraph()
+	vrOuts = map[*Metadata]LazyArgumentMap{}
+	w.leaf.expandForks(true)
+	verifCover("array-of-maps forks")
+	verifAssert(len(w.leaf.forks) == 4, "C01/C03: one fork per element of the outer array and key of the inner map")
+	vrUniqueForks(w.leaf)
+	want := [2][2]byte{{'1', '2'}, {'3', '4'}}
+	var ys [2][2]json.RawMessage
+	for _, f := range w.leaf.forks {
+		if len(f.forkId) != 2 {
+			verifAssert(false, "C01/C03: the fork id has an outer and an inner part")
+			return
+		}
+		oi, ok1 := f.forkId[0].Id.(arrayIndexFork)
+		ki, ok2 := f.forkId[1].Id.(mapKeyFork)
+		verifAssert(ok1 && ok2 && int(oi) >= 0 && int(oi) < 2 && (ki == "p" || ki == "q"), "C01/C03: forks are identified by array index and map key")
+		if !(ok1 && ok2 && int(oi) >= 0 && int(oi) < 2 && (ki == "p" || ki == "q")) {
+			return
+		}
+		k := 0
+		if ki == "q" {
+			k = 1
+		}
+		verifAssert(ys[oi][k] == nil, "C01/C03: no (element, key) pair is processed twice")
+		_, args, err := w.leaf.resolveInputs(f.forkId, false)
+		verifAssert(err == nil, "C01: the inputs of every fork resolve")
+		if err != nil {
+			return
+		}
+		verifAssert(verifBytesEq(vrEncode(args), []byte{'{', '"', 'x', '"', ':', want[oi][k], '}'}), "C01: the fork for (element i, key k) receives the value stored there")
+		ys[oi][k] = vrDigit("LEAF result")
+		vrOuts[f.metadata] = LazyArgumentMap{"y": ys[oi][k]}
+	}
+	_, args, err := w.summary.resolveInputs(w.summary.forks[0].forkId, false)
+	verifAssert(err == nil, "C01: the consumer's inputs resolve")
+	if err != nil {
+		return
+	}
+	wantArgs := vrCat([]byte(`{"ys":[{"p":`), ys[0][0], []byte(`,"q":`), ys[0][1], []byte(`},{"p":`), ys[1][0], []byte(`,"q":`), ys[1][1], []byte(`}]}`))
+	verifAssert(verifBytesEq(vrEncode(args), wantArgs), "C01: the outputs of a map call nested in an array-mapped pipeline merge into an array of maps")
+	verifCover("array of maps merged")
 }
